@@ -91,6 +91,7 @@ def scenarios():
             S.append(Scenario("own-" + tag, out=out, rm=rm, pkg=pkg, prior="own"))
             S.append(Scenario("older-" + tag, out=out, rm=rm, pkg=pkg, prior="older"))
             S.append(Scenario("garbage-" + tag, out=out, rm=rm, pkg=pkg, prior="garbage"))
+            S.append(Scenario("shrink-" + tag, out=out, rm=rm, pkg=pkg, prior="bigger"))
             S.append(Scenario("two-" + tag, out=out, rm=rm, pkg=pkg, args=("Store", "Lister:FakeLister"),
                               flags=("-stub", "-with-resets")))
             # failures at each stage
@@ -106,6 +107,8 @@ def scenarios():
                           fault="parent-is-file"))
         S.append(Scenario("syntaxerr" + ("-rm" if rm else ""), out="store_moq.go", rm=rm, prior="own",
                           fault="syntax-error", expect_gen_err=True))
+        S.append(Scenario("gomodsync" + ("-rm" if rm else ""), out="../outside/store_moq.go", rm=rm, pkg="outside",
+                          fault="gomod-out-of-sync", expect_gen_err=True))
     return S
 
 
@@ -127,8 +130,8 @@ def run_one(tools, base, sc, ref_cache):
     outabs = os.path.join(pkgdir, sc.out) if sc.out else None
     base_flags = list(sc.flags) + (["-pkg", sc.pkg] if sc.pkg else [])
 
-    def moq(args, cwd=pkgdir):
-        p = subprocess.run([tools.moq] + args, cwd=cwd, env=C.goenv(), stdout=subprocess.PIPE,
+    def moq(args, cwd=pkgdir, env=None):
+        p = subprocess.run([tools.moq] + args, cwd=cwd, env=env or C.goenv(), stdout=subprocess.PIPE,
                            stderr=subprocess.PIPE, text=True, timeout=120)
         return p.returncode, p.stdout, p.stderr
 
@@ -151,6 +154,9 @@ def run_one(tools, base, sc, ref_cache):
             prior_content = so
             with open(os.path.join(pkgdir, "store.go"), "w") as f:
                 f.write(SRC)
+        elif sc.prior == "bigger":
+            rc, so, se = moq(base_flags + ["."] + ["Store", "Lister"])
+            prior_content = so
         elif sc.prior == "garbage":
             prior_content = GARBAGE
         with open(outabs, "w") as f:
@@ -163,12 +169,27 @@ def run_one(tools, base, sc, ref_cache):
     if sc.fault == "parent-is-file":
         with open(os.path.join(pkgdir, "blocker"), "w") as f:
             f.write("i am a file\n")
+    run_env = None
+    if sc.fault == "gomod-out-of-sync":
+        # the module file lacks the requirement for a replaced dependency: loading must fail and
+        # leave go.mod alone (the go command is run without -mod=mod here, as a user would)
+        os.makedirs(os.path.join(root, "dep"))
+        with open(os.path.join(root, "dep", "go.mod"), "w") as f:
+            f.write("module example.com/dep\n\ngo 1.24\n")
+        with open(os.path.join(root, "dep", "dep.go"), "w") as f:
+            f.write("package dep\n\ntype T struct{}\n")
+        with open(os.path.join(root, "go.mod"), "a") as f:
+            f.write("\nreplace example.com/dep => ./dep\n")
+        with open(os.path.join(pkgdir, "uses_dep.go"), "w") as f:
+            f.write('package store\n\nimport "example.com/dep"\n\nvar _ dep.T\n')
+        run_env = C.goenv()
+        run_env.pop("GOFLAGS", None)
     if sc.fault == "syntax-error":
         with open(os.path.join(pkgdir, "broken.go"), "w") as f:
             f.write("package store\nfunc {\n")
     before = snapshot(root)
     args = (["-out", sc.out] if sc.out else []) + (["-rm"] if sc.rm else []) + base_flags + ["."] + sc.args
-    rc, so, se = moq(args)
+    rc, so, se = moq(args, env=run_env)
     after = snapshot(root)
     out_after = None
     if outabs and os.path.isfile(outabs):
@@ -219,7 +240,7 @@ def coq_case(o):
     # the generator oracle: fails when the package does not load (garbage file present, syntax
     # error) or when Mock fails (lookup / format); otherwise the reference bytes
     nargs = 1 + len(o["args"])
-    if o["ref_rc"] != 0 or o["fault"] == "syntax-error":
+    if o["ref_rc"] != 0 or o["fault"] in ("syntax-error", "gomod-out-of-sync"):
         gen = "(fun _ => GenErr \"gen\")"
     else:
         gen = ("(fun f => match f %s with Some (NFile c) => if String.eqb c PRIOR_GARBAGE then GenErr \"load\" "
